@@ -627,6 +627,15 @@ def directed_cases():
             C.append({"op": "broadcast", "Ne": Ne, "nPg": nPg, "td": td, "args": [fe([Ne, nPg] + [Ne, nPg][:td])]})
             if td == 2:
                 C.append({"op": "broadcast", "Ne": Ne, "nPg": nPg, "td": td, "args": [pl([Ne])]})      # rank below tensor_ndim
+    # every numpy reduction FUNCTION of the reference list, called as np.<f>(fe, axis=...), on
+    # shape-collision fields (Ne = nPg = dim, nPg = dim): FeArray exactly when the reduced axes are
+    # tensor axes, value = numpy's on the plain array (oracle-only)
+    for fn in REFERENCE_REDUCERS:
+        for shp in ([2, 2, 2], [3, 2, 2], [2, 2, 2, 2]):
+            nd = len(shp)
+            axes = [[0], [1], [-1], [1 - nd]] + ([[2, 3], [1, 3]] if nd == 4 and fn not in ("argmax", "argmin") else []) + [None]
+            for ax in axes:
+                C.append({"op": "npreduce", "fn": fn, "axis": ax, "args": [fe(shp, [(3 * i * i + i) % 5 - 1 for i in range(prod(shp))])], "model": False})
     C += dtype_cases()
     # SCALED TWINS (micro-/nano-scale Jacobians, huge moduli): the same matrices times 2**e.  Det must
     # scale by 2**(n e), Inv by 2**(-e), Norm by 2**e, Normalize not at all -- exactly
@@ -641,6 +650,14 @@ def directed_cases():
     for i, c in enumerate(C):
         c["coll"] = True
     return C
+
+
+# reduction functions numpy dispatches through __array_function__ whose result type must be read from
+# `axis` (the implementation's _REDUCERS table must contain each of these function objects)
+REFERENCE_REDUCERS = ("sum", "prod", "mean", "std", "var", "median", "average", "max", "min", "amax", "amin",
+                      "all", "any", "argmax", "argmin")
+# known NOT to be in the table on the checked-in tree (typed by result shape): listed for the report only
+OTHER_NUMPY_REDUCERS = ("ptp", "nansum", "nanprod", "nanmax", "nanmin", "nanmean", "count_nonzero")
 
 
 def dtype_cases():
@@ -864,6 +881,8 @@ def case_key(c):
         extra = json.dumps(c["labels"]) + json.dumps(c["out"])
     elif c["op"] == "broadcast":
         extra = "td%d" % c["td"]
+    elif c["op"] == "npreduce":
+        extra = c["fn"] + ":" + json.dumps(c["axis"])
     elif c["op"] == "dtype":
         extra = c["sub"] + ":" + "/".join(o.get("dtype", "") for o in c["args"])
     elif c["op"] == "TensorProd":
@@ -893,6 +912,10 @@ def violation_key(c):
         return "field-operator:%s:field-%s:other-%s" % (name, side, other)
     if op == "matmul" and kinds[0] in ("plain", "scalar") and kinds[1] == "fe":
         return "fearray-reflected-matmul:%s@fe" % kinds[0]
+    if op == "npreduce":
+        nd = len(c["args"][0]["shape"])
+        cls = "none" if c["axis"] is None else ("fe-axes" if any((a if a >= 0 else a + nd) < 2 for a in c["axis"]) else "tensor-axes")
+        return "np-reducer-typing:%s:%s" % (c["fn"], cls)
     if op == "dtype":
         return "dtype:%s:%s" % (c["sub"], "/".join("%s-%s" % (o["k"], o.get("dtype", "float64")) for o in c["args"]))
     if op == "Norm":
@@ -1001,6 +1024,25 @@ def field_sweep_spec(rng):
     return items
 
 
+MISSING_REPLAY = r'''
+import sys
+import numpy as np
+from EasyFEA.FEM import _linalg as L
+fn = %(fn)r
+fe = L.FeArray.asfearray(np.arange(8.).reshape(2, 2, 2))     # Ne = nPg = dim = 2
+inside = getattr(np, fn) in L._REDUCERS
+try:
+    r = getattr(np, fn)(fe, axis=0)
+    typed = type(r).__name__
+except Exception as ex:
+    typed = "raises " + type(ex).__name__
+print("np.%%s in _REDUCERS: %%s ; np.%%s(fe(2,2,2), axis=0) is a %%s (must be a plain ndarray: the element axis was reduced)" %% (fn, inside, fn, typed))
+bad = (not inside) or typed == "FeArray"
+print("VIOLATION reproduces" if bad else "no violation")
+sys.exit(1 if bad else 0)
+'''
+
+
 SWEEP_REPLAY = r'''
 import json, sys
 from corr import C12_impl as I
@@ -1028,9 +1070,12 @@ def correspondence(ctx, ncases, cap, per_file=400):
     ctx.cov["corr_scaled_twin_cases"] = sum(1 for c in cases if "scale_exp" in c)
 
     sweep_spec = field_sweep_spec(ctx.rng)
-    req = {"cases": cases, "real_fields": real_field_spec(ctx.rng), "field_sweeps": sweep_spec}
+    req = {"cases": cases, "real_fields": real_field_spec(ctx.rng), "field_sweeps": sweep_spec,
+           "reference_reducers": list(REFERENCE_REDUCERS) + list(OTHER_NUMPY_REDUCERS)}
     script = os.path.join(common.VERIF, "corr", "C12_impl.py")
+    ctx.log("generated %d cases" % len(cases))
     rc, out, err = ctx.impl_python(script, input=json.dumps(req), timeout=900)
+    ctx.log("implementation side done")
     if rc != 0:
         ctx.obligation("corr:impl-run", False, err[-1500:])
         ctx.violation("corr:impl-crash", "the implementation-side harness failed: " + (err.strip().splitlines()[-1][:200] if err.strip() else "rc=%d" % rc),
@@ -1040,9 +1085,17 @@ def correspondence(ctx, ncases, cap, per_file=400):
     results = {r["id"]: r for r in resp["results"]}
     # ---- model side: generated case files, evaluated by vm_compute
     files = []
-    for f0 in range(0, ncases, per_file):
+    # oracle-only cases (no Coq model) are decided on the implementation side; they are not written into
+    # the case files.  The modelled cases are spread over three files (one per coqc worker, <= 500 each
+    # in the quick tier)
+    oracle_only = [c for c in cases if c.get("model") is False and c["op"] != "dtype" and not (c["op"] in ("Det", "Inv") and c.get("tol"))]
+    oo_ids = set(c["id"] for c in oracle_only)
+    coq_cases = [c for c in cases if c["id"] not in oo_ids]
+    per_file = min(500, max(per_file, -(-len(coq_cases) // 3)))
+    nfiles = max(1, -(-len(coq_cases) // per_file))
+    for f0 in range(nfiles):
         body = HEADER
-        for c in cases[f0:f0 + per_file]:
+        for c in coq_cases[f0::nfiles]:          # round-robin: the heavy directed cases are spread evenly
             r = results[c["id"]]
             if c["op"] == "dtype":
                 # values / type / shape: per-(e,p) numpy loop (implementation side); result dtype: the
@@ -1061,13 +1114,14 @@ def correspondence(ctx, ncases, cap, per_file=400):
                 body += "Eval vm_compute in (%d, false).\n" % c["id"]
             else:
                 body += "Eval vm_compute in (%d, agrees_err detQ invQ (%s) %s).\n" % (c["id"], coq_expr(c), coq_obs(c, r))
-        files.append(("Cases_%03d.v" % (f0 // per_file), body))
+        files.append(("Cases_%03d.v" % f0, body))
 
     def run(fb):
         return fb[0], ctx.coq_eval(fb[0], fb[1], timeout=900)
     with ThreadPoolExecutor(max_workers=3) as ex:
         outs = list(ex.map(run, files))
-    verdict = {}
+    ctx.log("model side (vm_compute) done")
+    verdict = {c["id"]: results[c["id"]].get("oracle_ok") is True for c in oracle_only}
     for fname, (rc, txt) in outs:
         if rc != 0:
             ctx.obligation("corr:coq-eval:" + fname, False, txt[-1500:])
@@ -1106,6 +1160,13 @@ def correspondence(ctx, ncases, cap, per_file=400):
     ctx.cov["real_field_operator_checks"] = len(resp.get("real_fields", []))
     ctx.obligation("corr:real-Field-operators", not rbad, "%d of %d disagree with operator(other, field())" % (len(rbad), len(resp.get("real_fields", []))),
                    n=max(1, len(resp.get("real_fields", []))))
+    miss = resp.get("missing_reducers")
+    miss_ref = [m for m in (miss if miss is not None else ["<not reported>"]) if m in REFERENCE_REDUCERS or m.startswith("<")]
+    ctx.cov["reducers_outside_the_dispatch_table"] = miss
+    ctx.obligation("corr:_REDUCERS-contains-reference-list", not miss_ref, "missing: %s" % miss_ref, n=len(REFERENCE_REDUCERS))
+    for m in miss_ref:
+        ctx.violation("reducer-table-missing:%s" % m, "np.%s is not in _linalg._REDUCERS: np.%s(fe, axis=0 or 1) is then typed by the result shape, i.e. as a FeArray whenever the shape happens to start with (Ne, nPg)" % (m, m),
+                      {"replay_py": MISSING_REPLAY % {"fn": m}}, found_input=True)
     sw = resp.get("field_sweeps") or {"checks": 0, "bad": [{"op": "harness", "elem": "-", "dof_n": 0, "step": 0, "state": [], "want": []}]}
     ctx.cov["field_sweep_evaluations"] = sw["checks"]
     ctx.obligation("corr:Field-(node,dof)-sweep", not sw["bad"], "%d of %d operator evaluations on swept Field objects differ from numpy on the Gauss-point values" % (len(sw["bad"]), sw["checks"]),
@@ -1282,7 +1343,7 @@ def run(ctx):
         for r in failed:
             ctx.log("proof obligations broke in %s" % r.failed_file)
         ctx.sample({"theorem": "C12_elementwise_pointwise", "statement": "forall V vbin op a c Ne nPg s, shape a = Ne::nPg::s -> (np_bcast s (shape c) = Some u -> fe op plain and plain op fe are FeArrays of shape Ne::nPg::u with res[e,p,K] = op(a[e,p,K|s], c[K|t]) in the written order) /\\ (None -> ValueError)", "assumptions": "closed under the global context"})
-    n, cap = (1600, 1000) if ctx.tier == "quick" else (5000, 2500)
+    n, cap = (1650, 1000) if ctx.tier == "quick" else (5250, 2500)
     nviol0 = len(ctx.violations)
     if gen is None:
         # the case files need the generated closed forms; without them only report the translator failure
